@@ -25,6 +25,10 @@ type WPart struct {
 	Src []int `json:"src,omitempty"`
 	// EOFWith makes the source return its last bytes together with io.EOF.
 	EOFWith bool `json:"eof_with,omitempty"`
+	// SrcErr (readfrom / copy): after its data the source fails with an error
+	// of its own instead of io.EOF.  That is the application's failure, not
+	// the connection's: the call reports it, the message stays open.
+	SrcErr bool `json:"src_err,omitempty"`
 	// For API control: a WriteControl issued while the writer is open.
 	MT   int     `json:"mt,omitempty"`
 	Data Payload `json:"data,omitempty"`
@@ -111,10 +115,16 @@ type chunkSrc struct {
 	chunks  []int
 	i       int
 	eofWith bool
+	endErr  error // returned instead of io.EOF when set
 }
+
+var errSrcFailed = errors.New("harness: the application's source reader failed")
 
 func (s *chunkSrc) Read(p []byte) (int, error) {
 	if len(s.data) == 0 {
+		if s.endErr != nil {
+			return 0, s.endErr
+		}
 		return 0, io.EOF
 	}
 	n := len(p)
@@ -128,6 +138,9 @@ func (s *chunkSrc) Read(p []byte) (int, error) {
 	copy(p, s.data[:n])
 	s.data = s.data[n:]
 	if len(s.data) == 0 && s.eofWith {
+		if s.endErr != nil {
+			return n, s.endErr
+		}
 		return n, io.EOF
 	}
 	return n, nil
@@ -434,12 +447,22 @@ func (x *wexec) writePart(si, pi int, p WPart, w io.WriteCloser, chunk []byte, b
 		x.call(si, pi, "ReadFrom", bad, m, func() error {
 			rf, ok := w.(io.ReaderFrom)
 			src := &chunkSrc{data: chunk, chunks: p.Src, eofWith: p.EOFWith}
+			if p.SrcErr && !bad {
+				src.endErr = errSrcFailed
+			}
 			var n int64
 			var e error
 			if ok {
 				n, e = rf.ReadFrom(src)
 			} else {
 				n, e = io.Copy(w, src)
+			}
+			if src.endErr != nil {
+				// the source's own failure is reported, the bytes before it count
+				if e != errSrcFailed {
+					return fmt.Errorf("harness: the source failed with its own error but ReadFrom returned %v", e)
+				}
+				e = nil
 			}
 			if e == nil && n != int64(len(chunk)) {
 				return fmt.Errorf("harness: ReadFrom returned n=%d for %d bytes with nil error", n, len(chunk))
@@ -616,6 +639,7 @@ func genParts(t *rapid.T, n, w int, allowCtl bool, apis []string) []WPart {
 		if p.API == "readfrom" || p.API == "copy" {
 			p.Src = rapid.SliceOfN(rapid.OneOf(rapid.IntRange(1, 8), rapid.IntRange(1, 2*w+40)), 0, 6).Draw(t, "src")
 			p.EOFWith = rapid.Bool().Draw(t, "eofwith")
+			p.SrcErr = p.API == "readfrom" && rapid.IntRange(0, 2).Draw(t, "srcerr") == 0
 		}
 		parts = append(parts, p)
 		remaining -= l
